@@ -66,6 +66,15 @@ expect("removed_file", "diff --git a/dead.txt b/dead.txt\ndeleted file mode 1006
 expect("added_file", "diff --git a/born.txt b/born.txt\nnew file mode 100644\nindex 0000000..1111111\n--- /dev/null\n+++ b/born.txt\n@@ -0,0 +1,2 @@\n+x\n+y\n", ["ADD born.txt"], ["born.txt:1"])
 expect("two_modified", "diff --git a/a.rs b/a.rs\nindex 1111111..2222222 100644\n--- a/a.rs\n+++ b/a.rs\n" + HUNK + "diff --git a/b.rs b/b.rs\nindex 1111111..2222222 100644\n--- a/b.rs\n+++ b/b.rs\n@@ -7 +9 @@\n-p\n+q\n",
        ["MOD a.rs", "MOD b.rs"], ["a.rs:50", "b.rs:9"])
+# a section with a two-path diff line and only a Binary line, after another section
+bn = "diff --git a/README.md b/README.md\nindex 1111111..2222222 100644\n--- a/README.md\n+++ b/README.md\n" + HUNK + "diff --git a/img/one.png b/img/two.png\nindex 3333333..4444444 100644\nBinary files a/img/one.png and b/img/two.png differ\n"
+rc, lines = render(bn)
+stale = [l for l in lines if "README.md" in l and "binary" in l]
+if rc != 0 or stale or len([l for l in lines if l.startswith("MOD README.md")]) != 1 or not any("one.png" in l and "two.png" in l for l in lines):
+    bad += 1
+    print(f"api replay: scenario modified_then_binary_two_paths: second section rendered from stale names or lost: {lines[-4:]}")
+    open(os.path.join(outdir, "api_replay_binary.diff"), "w").write(bn)
+
 # plain `diff -u`: a removed line whose text starts with "-- " reads "--- ..." and must stay content
 du = "--- a.lua\t2024-01-01 00:00:00.000000000 +0000\n+++ b.lua\t2024-01-02 00:00:00.000000000 +0000\n@@ -1,2 +1,2 @@\n--- first removed comment\n-second removed\n+-- added comment\n+second added\n"
 rc, lines = render(du)
